@@ -443,6 +443,7 @@ func (g *materializer) paramExpr(t types.Type, v Value) string {
 
 const replayHelpers = `
 var pvcDomain []int64
+var pvc_idx int
 
 func pvc_implies(a, b bool) bool { return !a || b }
 func pvc_iff(a, b bool) bool     { return a == b }
